@@ -1955,6 +1955,7 @@ insert_list:
     }
     void semaphore::try_resume(uint64_t cnt) {
         assert(cnt);
+        PHOTON_VERIF_POINT(verif::SEM_PASS, this, cnt, 0);
         while(true) {
             ScopedLockHead h(this);
             if (!h) break;
